@@ -331,10 +331,82 @@ def _locals_in(f, operand):
     return out
 
 
+def r11c(ctx, P):
+    rid = "R11.c"
+    import re
+    ctx.rule(rid, "TOTAL ORDER in bounded heaps (completeness across pages): a page is the best `limit` entries of a total order and the "
+                  "next page starts behind the last key returned, so whichever entries a full top-k heap keeps must be a prefix of "
+                  "that SAME total order, ties included. In every function that runs the bounded-heap idiom (peek + pop + push on a "
+                  "BinaryHeap of ranked entries) the test that controls the replacement compares whole entries through the entry "
+                  "type's Ord / PartialOrd — never a projection such as the score alone, which keeps an arbitrary subset of tied "
+                  "entries and makes the following pages skip the others")
+    n = 0
+    for q, f in sorted(P.fns.items()):
+        if f.crate != "searchlite_core" or is_test_or_bench(f):
+            continue
+        pops = [(b, t) for b, t in f.calls() if re.search(r"BinaryHeap::<T(, A)?>::pop$", callee_of(t))]
+        peeks = [(b, t) for b, t in f.calls() if re.search(r"BinaryHeap::<T(, A)?>::peek$", callee_of(t))]
+        pushes = [(b, t) for b, t in f.calls() if re.search(r"BinaryHeap::<T(, A)?>::push$", callee_of(t))]
+        if not (pops and peeks and pushes):
+            continue
+        sl = Slice(f)
+        for pb, pt in pops:
+            # only replacements: a push dominated by this pop
+            if not any(f.dominates_block(pb, xb) for xb, _ in pushes):
+                continue
+            # ... guarded by `if let Some(worst) = heap.peek()`: the pop is controlled by a test on a peek() result
+            peek_dsts = {t_["dst"]["l"] for _, t_ in peeks}
+            guarded = False
+            for (a, succ) in f.control_deps_transitive(pb):
+                t_ = f.blocks[a]["term"]
+                if t_["k"] == "switch" and any(x[0] == "discr" and x[3]["l"] in peek_dsts for x in sl.sources(t_["on"])):
+                    guarded = True
+            if not guarded:
+                continue
+            hl = op_local(pt["args"][0])
+            hty = f.local_ty(hl) if hl is not None else ""
+            m = re.findall(r"([A-Za-z_][A-Za-z0-9_:]*)(?:<|>|,|$)", hty)
+            elem = [x for x in m if x.startswith("searchlite_core::")]
+            elem_ty = elem[-1] if elem else None
+            n += 1
+            ctx.saw(f)
+            whole, proj = [], []
+            for (a, succ) in f.control_deps_transitive(pb):
+                t = f.blocks[a]["term"]
+                if t["k"] != "switch":
+                    continue
+                for x in sl.sources(t["on"]):
+                    if x[0] == "call" and re.search(r"(PartialOrd(<[^>]*>)?>?::(lt|gt|le|ge|partial_cmp)|Ord>?::cmp)$", callee_of(x[2])):
+                        tys = [f.local_ty(op_local(a_)) for a_ in x[2]["args"] if op_local(a_) is not None]
+                        if elem_ty and all(elem_ty.rsplit("::", 1)[1] in ty for ty in tys):
+                            whole.append(Site(f, x[1]))
+                        else:
+                            proj.append((Site(f, x[1]), "compares %s" % " with ".join(ty.replace("searchlite_core::", "") for ty in tys)))
+                    if x[0] == "binop" and x[1] in ("Lt", "Gt", "Le", "Ge"):
+                        st = f.blocks[x[2]]["stmts"][x[3]]
+                        flds = set()
+                        for o in (st["rv"]["a"], st["rv"]["b"]):
+                            for y in sl.sources(o):
+                                if y[0] == "field":
+                                    for e in y[3]["p"]:
+                                        if isinstance(e, dict) and e.get("of") and elem_ty and e["of"] == elem_ty:
+                                            flds.add(e["f"])
+                        if flds:
+                            proj.append((Site(f, x[2], x[3]), "compares the field(s) %s only" % sorted(flds)))
+            ok = bool(whole) and not proj
+            ctx.ob(rid, "%s:%s:replacement-by-total-order" % (rid, f.short), ok,
+                   "a full heap replaces its worst entry only after comparing whole %s values (%s)" % ((elem_ty or "?").rsplit("::", 1)[-1], whole[0].loc()) if ok else
+                   "the replacement at %s is decided by a test that %s instead of the entry type's total order: among entries tied on "
+                   "that projection an arbitrary subset survives, and cursor pagination then skips the others" % (
+                       Site(f, pb).loc(), proj[0][1] if proj else "does not compare whole entries"), (proj[0][0].loc() if proj else Site(f, pb).loc()))
+    ctx.floor(rid, n, 2, "bounded-heap replacements (wand::push_top_k, reader::push_ranked)")
+
+
 def run(ctx, progs):
     P = progs.get("default")
     r11a(ctx, P)
     r11b(ctx, P)
+    r11c(ctx, P)
     ctx.assumptions += ["the manifest generation (maximum segment generation) changes with every commit that adds a segment and with every "
                         "compaction; delete-only commits keep it (the cursor then still addresses the same segments)",
                         "CRC32 of (kind, name, order) per field distinguishes sort plans (collision strength not decided)"]
